@@ -202,6 +202,7 @@ func (c *vCtx) enumSamples(reduced bool) {
 					return s.Verify(S.DAH, r, col), []libshare.Share{s.Share}
 				}
 			}
+			jsonReq := (r == 0 || r == n-1) && (col == 0 || col == n-1)
 			verifyJSON := func(s shwap.Sample) func() (error, []libshare.Share) {
 				return func() (error, []libshare.Share) {
 					d, err := sampleViaJSON(s)
@@ -221,8 +222,8 @@ func (c *vCtx) enumSamples(reduced bool) {
 						p := proofs[0][ai][sr][sc]
 						for fi, flag := range vAxisLabels {
 							for graft := 0; graft < 2; graft++ {
-								if graft == 1 && sr == r && sc == col {
-									continue
+								if graft == 1 && ((sr == r && sc == col) || fi >= 2) {
+									continue // grafting the requested share is combined with the valid labels only
 								}
 								sh := S.Cell(sr, sc)
 								shName := "own"
@@ -241,8 +242,9 @@ func (c *vCtx) enumSamples(reduced bool) {
 								// the same sample through its JSON representation (MarshalJSON of the struct,
 								// UnmarshalJSON on the receiving side): every out-of-range label with material of
 								// the requested cell, its row and its column (all quadrants); valid labels for the
-								// honest sample. (Labels 2 and -1 only, own share only: 3 and 255 decode exactly like 2.)
-								if ((fi == 2 || fi == 5) && ri <= 2 && graft == 0) || honest {
+								// honest sample. JSON (reflection + base64) is ~50x dearer than Verify, so it is exercised for
+								// the four corner coordinates (one per quadrant); the struct form covers every coordinate.
+								if jsonReq && (((fi == 2 || fi == 5 || (!reduced && fi >= 2)) && ri <= 2 && graft == 0) || honest) {
 									jclass := "sample/honest/" + axisName(pa) + ",via=json"
 									if !honest {
 										jclass = sclass[ri][ai][fi][graft][1]
@@ -305,14 +307,14 @@ func (c *vCtx) enumSamples(reduced bool) {
 				for _, a := range alts {
 					c.try("sample", req, func() string { return a.name + " on " + axisName(pa) + "-sample" },
 						"sample/proofshape="+a.name, false, false, ref, verify(a.s))
-					if strings.Contains(a.name, "flag=label#") {
+					if jsonReq && strings.Contains(a.name, "flag=label#") {
 						c.try("sample", req, func() string { return "JSON round trip of " + a.name + " on " + axisName(pa) + "-sample" },
 							"sample/proofshape="+a.name+",via=json", false, false, ref, verifyJSON(a.s))
 					}
 				}
 				// editing the proof_type field of the honest JSON document
 				hs := shwap.Sample{Share: own, Proof: hp, ProofType: pa}
-				if hj, err := hs.MarshalJSON(); err == nil {
+				if hj, err := hs.MarshalJSON(); err == nil && jsonReq {
 					field := []byte(`"proof_type":` + strconv.Itoa(int(pa)))
 					if bytes.Count(hj, field) == 1 {
 						for _, v := range []string{"2", "3", "255", "-1", "256", "4294967296", "1.0", `"1"`, "null", strconv.Itoa(1 - int(pa))} {
@@ -442,6 +444,9 @@ func (c *vCtx) enumRows(reduced bool) {
 		// the JSON representation carries the side as a string: every valid and several unknown
 		// spellings × halves/whole of the requested row and of its neighbour
 		for _, j := range []int{idx, (idx + 1) % n} {
+			if idx != 0 && idx != n-1 {
+				break // JSON presentation for the first and the last (parity) row
+			}
 			src := S.Row(j)
 			for _, p := range []struct {
 				name string
@@ -1254,6 +1259,14 @@ func (c *vCtx) runWire(wc wireCase, deadline time.Time, shortOnly bool) bool {
 	return !time.Now().After(deadline)
 }
 
+// wireSampleCoords: quick mutates the encodings of two sample coordinates, thorough of three.
+func wireSampleCoords() int {
+	if vx.TierFromEnv() == "thorough" || os.Getenv("VERIF_REPLAY") != "" {
+		return 3
+	}
+	return 2
+}
+
 func clip(b []byte, n int) []byte {
 	if len(b) > n {
 		return b[:n]
@@ -1271,7 +1284,7 @@ func (c *vCtx) c01WireCases() []wireCase {
 	for _, x := range []struct {
 		r, c int
 		ax   rsmt2d.Axis
-	}{{0, 0, rsmt2d.Row}, {n - 1, n - 1, rsmt2d.Col}, {0, n - 1, rsmt2d.Row}} {
+	}{{0, 0, rsmt2d.Row}, {n - 1, n - 1, rsmt2d.Col}, {0, n - 1, rsmt2d.Row}}[:wireSampleCoords()] {
 		smp, err := rs.SampleForProofAxis(shwap.SampleCoords{Row: x.r, Col: x.c}, x.ax)
 		if err != nil {
 			panic(err)
@@ -1523,11 +1536,12 @@ func c01Groups(tier string) []vGroup {
 	pads := []int{0, 1}
 	gs := []vGroup{
 		{Name: "w1-all-layouts,full-alphabet", Layouts: sq.Layouts(1, 0, pads)},
-		{Name: "w2-all-layouts,full-alphabet", Layouts: sq.Layouts(2, 0, pads)},
+		{Name: "w2-all-layouts,full-alphabet", Layouts: sq.Layouts(2, 0, nil)},
 		{Name: "w4-upto2-namespaces,reduced-alphabet", Layouts: sq.Layouts(4, 2, nil), Reduced: true},
 	}
 	if tier == "thorough" {
 		gs = append(gs,
+			vGroup{Name: "w2-all-layouts-with-namespace-padding,full-alphabet", Layouts: sq.Layouts(2, 0, []int{1})},
 			vGroup{Name: "w4-upto2-namespaces,full-alphabet", Layouts: sq.Layouts(4, 2, pads)},
 			vGroup{Name: "w4-exactly3-namespaces,reduced-alphabet", Layouts: only3(sq.Layouts(4, 3, nil)), Reduced: true},
 			vGroup{Name: "w8-fixed-list,reduced-alphabet", Layouts: sq.Fixed8(), Reduced: true},
@@ -1552,7 +1566,8 @@ func TestVerifC01(t *testing.T) {
 	rep := vx.NewReport("C01", "model_checking")
 	rep.Rule = "bounded-exhaustive: every namespace layout of the listed ODS widths (verifx/sq: non-decreasing sequences over TX<PFB<PRP<A<B<C<TAIL, with and without namespace padding) " +
 		"× every request (each EDS coordinate; each EDS row; each (EDS row, probe namespace); each ODS range [from,to)) × every candidate response of the operator alphabet " +
-		"(sample: share and proof of every cell × proof axis × axis flag × own/requested share, proof-shape operators, other-square material; row: every half/whole of every row and column × every side flag, share-list operators; " +
+		"(sample: share and proof of every cell × proof axis × axis label in {row,col,2,3,255,-1} × own/requested share, presented as a struct for every coordinate and through the MarshalJSON/UnmarshalJSON round trip and proof_type edits of the honest JSON for the four corner coordinates, proof-shape operators, other-square material (also with out-of-range labels); " +
+		"row: every half/whole of every row and column × side label in {LEFT,RIGHT,BOTH,3,255,-1}, JSON documents with valid and unknown side strings, share-list operators; " +
 		"row namespace data: every sub-range / absence-at-leaf / producer output for every probe namespace of every row, share-list operators; range: every re-slicing of first and last row × {no, own, requested} proofs, " +
 		"row shift, transposition, other-square splices, proof swaps, row/share order, row count; wire: every truncation, single-byte substitution from 9 values, deletion, insertion of 4 values, all strings of length <= 2). " +
 		"A case is (square, request, candidate); it is counted as distinct_nontrivial when the candidate is not an honest response and the shares it exposes differ from the committed shares at the requested position (accepting it would violate the property)."
